@@ -134,20 +134,20 @@ ADDED = {
  "C01": "histories of 2..7 operations on one tag object with a fault plan per operation (every returned assignment verified by a fresh activation); Type 4 round trips under one survivable ISO-DEP fault at every block position; multi-sector Type 2 layouts whose reserved ranges sit at / across the 1 KiB sector boundaries with message lengths anchored on the layout; histories on multi-sector Type 2 Tags in which the tag itself refuses a command (NAK); assignments as bytes and bytearray; control TLV ranges beginning right behind the NDEF TLV header; Type 3 Tags of 64 KiB and more (message lengths around 65536)",
  "C02": "cut sweep of a write that follows a failed write on the same NDEF object; FeliCa Lite/Lite-S with authenticated writers and fresh readers that authenticate first; old / new lengths anchored on every reserved range and the end of the data area (Type 1 static / dynamic, Type 2), complete-write state always judged; the first write of the after-failed leg disturbed by bursts of 3 / 4 / 6 exchanges or a refusal of the tag (the state after the failed write is judged)",
  "C03": "the byte-diff / write-address oracle applied to every operation of a history on one tag object (read, format, write, dump); multi-system FeliCa Standard cards; histories on multi-sector Type 2 Tags in which the tag itself refuses a command (NAK, halted afterwards)",
- "C05": "two application threads sending on one socket (harness-pumped controllers without a pause between dispatch and collect, forced picks at every scheduling point; full stacks with forced preemptions); application threads descheduled in virtual time; histories of up to 10 successive and overlapping connections on one listening socket with re-used client addresses and either end closing first, late or never (bounded-exhaustive for short histories); the server application stops listening while accepted connections live on; messages delivered and acknowledged but unread when the sender closes (exhaustive small leg); the sender closing while accepted messages still wait in its send queue",
+ "C05": "two application threads sending on one socket (harness-pumped controllers without a pause between dispatch and collect, forced picks at every scheduling point; full stacks with forced preemptions); application threads descheduled in virtual time; histories of up to 10 successive and overlapping connections on one listening socket with re-used client addresses and either end closing first, late or never (bounded-exhaustive for short histories); the server application stops listening while accepted connections live on; messages delivered and acknowledged but unread when the sender closes (exhaustive small leg); the sender closing while accepted messages still wait in its send queue; stray CONNECTs to an established client socket",
  "C06": "2..5 SNEP requests on one connection; consuming threads descheduled in bursts; multi-record messages with the client leaving after n fragments; several SNEP / handover servers and 2..4 client threads whose connection set-ups and transfers overlap on one link (aggregates carrying two connections measured on the air); 1-3 request / select rounds on one handover connection; NDEF payloads that repeat with a fragment size (whole fragments equal); acceptable-length limits as absolute octet counts incl. 0; sessions over temporary connections with descheduled server threads",
  "C07": "the device under test as connecting client whose receive window a raw peer overruns (with exchange latency); RTOX sequences; maximum-length SDREQ names; link MIU up to 2175; a hostile peer that builds its frames from observed transaction ids, SAPs and sequence numbers; grammar-built commands to the emulated Type 3 Tag (service lists to 16, block lists to 20 elements, the unservable element at every position, framing defects), directly and through connect(card=...); the peer-byte legs also under python -O (assert statements compiled out); connection requests by name to the names a controller knows from the start (the service discovery name itself); the PDU decode calls run with the interpreter stack an application has (Hypothesis lifts the recursion limit otherwise), so frames nested hundreds of levels deep are judged as an application meets them",
  "C08": "Type 4 card failing at the k-th APDU; length fields overshooting the true room; tags leaving the field during re-activation with the object probed several times; layout-aware capacity/origin oracle for intact layouts; SENSF_RES of every FeliCa product family and poll answers with another PMm; a well-framed Type 3 read response carrying fewer blocks than asked for in the usual course of an NDEF read",
- "C09": "six more racing calls on an established connection; programs descheduled in virtual time; connections dying (FRMR / bad I PDU / DISC / DM) while threads are blocked on them, before termination; a link thread running dispatch / collect rounds against application threads that accept, close, connect, bind and resolve, every schedule to a depth (the link thread must not die of an unhandled exception); the same scenes with ONE preemption before every source line a thread executes inside nfcpy (vsched line preemption: races where nfcpy has no synchronisation point); random scenarios also under another string hash seed; two threads in the same blocking call on one socket; two or three line preemptions per case; a raw access point on a well-known address whose service name is then bound by another socket",
+ "C09": "six more racing calls on an established connection; programs descheduled in virtual time; connections dying (FRMR / bad I PDU / DISC / DM) while threads are blocked on them, before termination; a link thread running dispatch / collect rounds against application threads that accept, close, connect, bind and resolve, every schedule to a depth (the link thread must not die of an unhandled exception); the same scenes with ONE preemption before every source line a thread executes inside nfcpy (vsched line preemption: races where nfcpy has no synchronisation point); random scenarios also under another string hash seed; two threads in the same blocking call on one socket; two or three line preemptions per case; a raw access point on a well-known address whose service name is then bound by another socket; the listen threads of the SNEP / handover servers held back across the link end",
  "C10": "connections ending (close / peer DISC / FRMR) with I PDUs queued while other sockets share the frame; the peer's announcements as octets (every reserved-bit pattern of MIUX in general bytes / CONNECT / CC, repeated and unknown TLVs) judged against the reference's reading of the announced MIU; the machine leg also under another string hash seed; messages handed over as bytes, bytearray, byte views and views of wider items (refused or within every limit)",
  "C11": "PDU objects modified through attribute setters in generated orders; aggregates with one member cut short; the differential is exact (any disagreement with the reference is a violation); every variable-length field at the lengths 0, 1, max-1, max, max+1 (object side: must encode up to max and be refused beyond; byte side: TLVs with L up to 255), alone and inside aggregates; aggregates whose member objects are changed after they joined; decode calls run with the interpreter stack an application has",
  "C12": "every ATS shape x FSCI 0..8 and Type 4B variants with the card's frame size taken from what it announced; Type4Tag over the eight real drivers and chip receiver models with RF faults the driver has to classify; transparency judged per block step with chains of up to 14 blocks and a fault on the first exchange of every block step; echo APDU bodies of one octet throughout and of content repeating with the block size; S(WTX) requests with power level bits",
  "C13": "exchange() racing close/open of another thread over the real drivers; listen-side histories with response / empty / None; surplus payload bytes in well-framed host responses; sequences of two host-link faults on the same or consecutive host commands; status / host fault / udp legs also under python -O",
- "C14": "the same command object exchanged repeatedly (RF side judged); histories of different target kinds on one driver object with chip models honouring the CRC settings; the SEL_RES value space; the response validation, Type 2 path and CRC legs also under python -O (validation resting on assert statements disappears there); one command against a scripted device (silence, noise, error frames) with EVERY write judged, incl. the frames written to cancel a command",
- "C15": "driver close() and other driver calls raising IOError, the proxy driver remembers that it was closed; connect() left by KeyboardInterrupt while another thread is inside a driver call; one preemption before every source line a thread of the fixed programs executes inside nfcpy; the with-block of the frontend left by an application exception; driver search / initialisation of open() accounted as a driver call; interpreter-exit hooks registered during a case run while other threads are at work",
- "C16": "histories on one FeliCa Lite/Lite-S, Type 1 and Type 2 tag object with an error burst at every command position (later operations judged too, no answered write repeated); faults at the library's re-activation polls; error bursts of mixed kinds (reason code of the last attempt); all NXP personalities of tt2_nxp.py (Ultralight, Ultralight C with 3DES mutual authentication, NTAG203, Ultralight EV1, NTAG210-216, NTAG I2C) as fixtures; simulated time (a timeout takes the time the caller allowed); a card asking for waiting time extensions (faults on that exchange: known finding for the TagCommandError outcome); with every exchange failing from a position on, format / protect / authenticate never report success",
+ "C14": "the same command object exchanged repeatedly (RF side judged); histories of different target kinds on one driver object with chip models honouring the CRC settings; the SEL_RES value space; the response validation, Type 2 path and CRC legs also under python -O (validation resting on assert statements disappears there); one command against a scripted device (silence, noise, error frames) with EVERY write judged, incl. the frames written to cancel a command; the ACR122 LED / buzzer pseudo APDUs for every duration",
+ "C15": "driver close() and other driver calls raising IOError, the proxy driver remembers that it was closed; connect() left by KeyboardInterrupt while another thread is inside a driver call; one preemption before every source line a thread of the fixed programs executes inside nfcpy; the with-block of the frontend left by an application exception; driver search / initialisation of open() accounted as a driver call; interpreter-exit hooks registered during a case run while other threads are at work; sense() / connect() calls that have nothing to do, next to threads at work",
+ "C16": "histories on one FeliCa Lite/Lite-S, Type 1 and Type 2 tag object with an error burst at every command position (later operations judged too, no answered write repeated); faults at the library's re-activation polls; error bursts of mixed kinds (reason code of the last attempt); all NXP personalities of tt2_nxp.py (Ultralight, Ultralight C with 3DES mutual authentication, NTAG203, Ultralight EV1, NTAG210-216, NTAG I2C) as fixtures; simulated time (a timeout takes the time the caller allowed); a card asking for waiting time extensions (faults on that exchange: known finding for the TagCommandError outcome); with every exchange failing from a position on, format / protect / authenticate never report success; the driver returning a frame without a single octet (Type 4)",
  "C17": "two threads running bind-type programs on one controller with the schedule tree walked; connect(name) judged at the API with a stale-name macro; connected sockets reaching end of life in every order with address / name probes after each close; sessions in which the server closes the end of a finished connection only after the next connection from the re-used address is in service; a 20h refusal is judged against the listener's backlog; the machine leg also under another string hash seed; 2..5 lookups outstanding at once with long names; a lookup still waiting at a quiet link is a violation",
- "C18": "one connect() over a field whose occupant changes by script (on-connect needs a real activation); empty-list on-startup results; Type 4A tags incl. SEL_RES 60h, a tag the application accepted must reach on-connect; Type 1 Tags and tags in the field during llcp-only connects; an application that operates on the tag inside on-connect / after connect() while the tag leaves or a fault hits at a generated command position; peer to peer sessions whose on-connect starts application threads that wait on data link connections when the link ends; every option that survived its on-startup must reach the device in a complete round of the main loop; a tag one of whose answers has an unexpected shape (longer, shorter, other response code)",
+ "C18": "one connect() over a field whose occupant changes by script (on-connect needs a real activation); empty-list on-startup results; Type 4A tags incl. SEL_RES 60h, a tag the application accepted must reach on-connect; Type 1 Tags and tags in the field during llcp-only connects; an application that operates on the tag inside on-connect / after connect() while the tag leaves or a fault hits at a generated command position; peer to peer sessions whose on-connect starts application threads that wait on data link connections when the link ends; every option that survived its on-startup must reach the device in a complete round of the main loop; a tag one of whose answers has an unexpected shape (longer, shorter, other response code); every Type B bitrate in the unsupported listen",
  "C19": "bursts of small datagrams (aggregates of 3 and more PDUs); 1..9 resolver threads per side at link-up; data link connections with receive windows 0..15 set up while near-MIU datagrams are pending; the option grid over the library's real udp driver on both sides; datagram send limits judged at the API (a datagram of the peer's MIU is taken, one octet more refused), also for sockets created before the link is up",
  "C20": "0..3-operation histories on one Lite/Lite-S object with write counter policies; NDEF reads with one bit of the MAC-protected region flipped; length-changing substitutions of read responses; NDEF accesses, in-transit modifications and authenticate() in every order on one Lite / Lite-S object: after a successful authenticate() only genuine tag content or None is handed out; two readers with their own tags and tag objects authenticating at the same time under a line-granular schedule owned by the harness; an exception for the right password of a documented type is a violation; authentication and MAC legs also with every nfc logger enabled",
 }
